@@ -1045,3 +1045,45 @@ V('v19.5', 'C19', 'F', 'C19.R4', 'from_dataframe always lists the index',
         ):
             index = list(index)""", """        index = list(index)"""))
 V('v19.5b', 'C19', 'F', 'C19.R4', 'columns passed positionally lose their names', (MODELS, 'BaseModel.from_dataframe', '**{k: v.values for k, v in data.items()}', '**{k.lower(): v.values for k, v in data.items()}'))
+
+# ---------------------------------------------------------------------------
+# C07
+# ---------------------------------------------------------------------------
+FE_ = 'FortranEngine'
+V('v07.1', 'C07', 'F', 'C07.R3', 'revert F9 in solve_t', (FORTRAN, f'{FE_}.solve_t', '[self.names.index(x) + 1 for x in self.check]', '[self.names.index(x) for x in self.check]'))
+V('v07.1b', 'C07', 'F', 'C07.R3', 'revert F9 in solve', (FORTRAN, f'{FE_}.solve', '[self.names.index(x) + 1 for x in self.check]', '[self.names.index(x) for x in self.check]'))
+V('v07.1c', 'C07', 'F', 'C07.R3', '_evaluate passes zero-based t', (FORTRAN, f'{FE_}._evaluate', 'self.values.astype(float), t + 1', 'self.values.astype(float), t'))
+V('v07.2', 'C07', 'F', 'C07.R2', 'min_iter / max_iter swapped', (FORTRAN, f'{FE_}.solve_t', '            min_iter,\n            max_iter,\n            tol,', '            max_iter,\n            min_iter,\n            tol,'))
+V('v07.3', 'C07', 'F', 'C07.R2', 'results unpacked in the wrong order', (FORTRAN, f'{FE_}.solve_t', 'solved_values, converged, iteration, error_code = self.ENGINE.solve_t(', 'solved_values, iteration, converged, error_code = self.ENGINE.solve_t('))
+V('v07.3b', 'C07', 'F', 'C07.R2', 'template: evaluate called with transposed dimensions', (FORTRAN, 'FORTRAN_TEMPLATE', 'call evaluate(previous_values, index, solved_values, error_code, nrows, ncols)', 'call evaluate(previous_values, index, solved_values, error_code, ncols, nrows)'))
+V('v07.4', 'C07', 'F', 'C07.R4', 'skip/ignore codes swapped on the Python side', (FORTRAN, FE_, "        'skip':    1,\n        'ignore':  2,\n        'replace': 3,", "        'skip':    2,\n        'ignore':  1,\n        'replace': 3,"))
+V('v07.5', 'C07', 'F', 'C07.R4', 'solve tests 23 for skip', (FORTRAN, f'{FE_}.solve', "elif error_code == 22 and errors == 'skip':", "elif error_code == 23 and errors == 'skip':"))
+V('v07.5b', 'C07', 'F', 'C07.R4', 'revert F18 in solve_t', (FORTRAN, f'{FE_}.solve_t', """        elif error_code in (11, 12, 13, 14):
+            raise IndexError(
+                f'Position `t` ({t}) cannot accommodate the lags ({self.lags}) '
+                f'and leads ({self.leads}) of the current model instance, '
+                f'which has {len(self.span)} period(s) in its span'
+            )
+
+""", ''))
+V('v07.5c', 'C07', 'F', 'C07.R4', '_evaluate maps lags/leads codes to SolutionError', (FORTRAN, f'{FE_}._evaluate', 'if error_code in (11, 12, 13, 14):', 'if error_code in (11, 12):'))
+V('v07.6', 'C07', 'F', 'C07.R5', 'template: <= tol', (FORTRAN, 'FORTRAN_TEMPLATE', 'if(all(abs(diff) < tol)) then', 'if(all(abs(diff) <= tol)) then'))
+V('v07.6b', 'C07', 'F', 'C07.R5', 'template: any()', (FORTRAN, 'FORTRAN_TEMPLATE', 'if(all(abs(diff) < tol)) then', 'if(any(abs(diff) < tol)) then'))
+V('v07.7', 'C07', 'F', 'C07.R5', 'template: no iteration - 1 after exhaustion', (FORTRAN, 'FORTRAN_TEMPLATE', """  if(.not. converged) then
+     iteration = iteration - 1
+  end if
+
+end subroutine solve_t""", """end subroutine solve_t"""))
+V('v07.8', 'C07', 'F', 'C07.R5', 'template: offset upper bound >=', (FORTRAN, 'FORTRAN_TEMPLATE', 'else if(offset_location > ncols) then', 'else if(offset_location >= ncols) then'))
+V('v07.8b', 'C07', 'F', 'C07.R5', 'template: gate <=', (FORTRAN, 'FORTRAN_TEMPLATE', '     if(iteration < min_iter) then\n        cycle', '     if(iteration <= min_iter) then\n        cycle'))
+V('v07.8c', 'C07', 'F', 'C07.R5', 'template: loop to max_iter - 1', (FORTRAN, 'FORTRAN_TEMPLATE', '  do iteration = 1, max_iter\n', '  do iteration = 1, max_iter - 1\n'))
+V('v07.8d', 'C07', 'F', 'C07.R5', 'template: solve stops on any non-convergence', (FORTRAN, 'FORTRAN_TEMPLATE', '        else if(failure_control == failure_control_raise) then', '        else if(failure_control /= failure_control_ignore + 1) then'))
+V('v07.9', 'C07', 'F', 'C07.R1', 'numbering from 0', (FORTRAN, 'build_fortran_definition', 'itertools.chain(endogenous, exogenous, parameters, errors), start=1', 'itertools.chain(endogenous, exogenous, parameters, errors), start=0'))
+V('v07.10', 'C07', 'F', 'C07.R1', 'exogenous numbered first', (FORTRAN, 'build_fortran_definition', 'itertools.chain(endogenous, exogenous, parameters, errors)', 'itertools.chain(exogenous, endogenous, parameters, errors)'))
+V('v07.11', 'C07', 'F', 'C07.R6', 't -> index applied to the whole reference',
+  (FORTRAN, 'build_fortran_definition', """variable = f"solved_values({variables_to_numbers[match[1]]}, {match[2].replace('t', 'index')})\"""", """variable = f"solved_values({variables_to_numbers[match[1]]}, {match[2]})".replace('t', 'index')"""))
+V('v07.11b', 'C07', 'F', 'C07.R6', 'matches replaced left to right', (FORTRAN, 'build_fortran_definition', 'for match in reversed(list(pattern.finditer(equation))):', 'for match in list(pattern.finditer(equation)):'))
+V('v07.s1', 'C07', 'S', None, 'skip code renumbered consistently on both sides',
+  (FORTRAN, 'FORTRAN_TEMPLATE', 'integer :: numerical_error_skip = 22', 'integer :: numerical_error_skip = 25'),
+  (FORTRAN, f'{FE_}.solve', "elif error_code == 22 and errors == 'skip':", "elif error_code == 25 and errors == 'skip':"),
+  (FORTRAN, f'{FE_}.solve_t', "elif error_code == 22 and errors == 'skip':", "elif error_code == 25 and errors == 'skip':"))
